@@ -160,6 +160,20 @@ def inspect_frame(frame: FrameType) -> FrameDetails:
 
     from ._lowlevel import _parse_exception_table
 
+    # The frame object's pointer to its interpreter frame, as a number that
+    # we can read without calling anything. While a frame is executing, its
+    # interpreter frame lives on the data stack of the thread that runs it;
+    # when it finishes (in whatever way) and something still refers to the
+    # frame object, as we do, the interpreter frame is copied into the frame
+    # object and this pointer is redirected there. So this pointer tells
+    # us reliably whether the memory that we're about to look at is still
+    # the frame we mean, which f_lasti does not: a frame that is left by an
+    # exception passing through a 'with' or 'finally' block ends with the
+    # f_lasti of the instruction that raised.
+    f_frame_field = ctypes.c_size_t.from_address(
+        id(frame) + FrameObject.f_frame.offset
+    )
+
     # Obtain a consistent snapshot of lasti + stack. This might require
     # more than one attempt if the frame we're looking at is currently
     # executing on another thread.
@@ -183,16 +197,29 @@ def inspect_frame(frame: FrameType) -> FrameDetails:
             # we read from iframe_raw. All accesses to the
             # InterpreterFrame object are kept within this
             # consistency-checked loop for that reason.
-            iframe_raw = frame_raw.f_frame.contents
-            assert iframe_raw.f_globals == id(frame.f_globals)
-            assert iframe_raw.f_builtins == id(frame.f_builtins)
-            assert iframe_raw.f_code == id(frame.f_code)
+            #
+            # The interpreter can only switch threads after a call or at a
+            # backward jump. A check that the pointer is unchanged followed
+            # by reads of the fixed-size part of what it points to, with
+            # nothing but loads of names and attributes in between, is
+            # therefore one atomic step.
+            iframe_addr = f_frame_field.value
+            iframe_raw = InterpreterFrame.from_address(iframe_addr)
+            assert f_frame_field.value == iframe_addr
+            raw_globals = iframe_raw.f_globals
+            raw_builtins = iframe_raw.f_builtins
+            raw_code = iframe_raw.f_code
+            raw_frame_obj = iframe_raw.frame_obj
+            stacktop_copy = iframe_raw.stacktop
+            frame_owner = iframe_raw.owner  # one of the FRAME_OWNED_BY_* constants
+            assert raw_globals == id(frame.f_globals)
+            assert raw_builtins == id(frame.f_builtins)
+            assert raw_code == id(frame.f_code)
             # frame_obj is null if this iframe is owned by the frame object (thus
             # physically contained within it), to avoid a circular reference
-            assert iframe_raw.frame_obj in (0, id(frame))
+            assert raw_frame_obj in (0, id(frame))
 
             # Figure out what portion of the stack is actually valid
-            stacktop_copy = iframe_raw.stacktop
             if stacktop_copy == -1:
                 # Frames that are currently executing have stacktop == -1.
                 # Trim the stack at the depth it would be popped to before
@@ -203,13 +230,12 @@ def inspect_frame(frame: FrameType) -> FrameDetails:
                 stack_top_offset = localsplus_offset + wordsize * stacktop_copy
                 assert stack_start_offset <= stack_top_offset <= end_offset
 
-            frame_owner = iframe_raw.owner  # one of the FRAME_OWNED_BY_* constants
-
             stack_len = (stack_top_offset - stack_start_offset) // wordsize
             stack_ptr = (ctypes.py_object * stack_len).from_address(
-                ctypes.addressof(iframe_raw) + stack_start_offset
+                iframe_addr + stack_start_offset
             )
             _verif_hook("inspect_frame:pre_stack", frame)
+            assert f_frame_field.value == iframe_addr
             assert frame.f_lasti == lasti_before
 
             # Extract object pointers for it. This is by far the most
@@ -231,9 +257,10 @@ def inspect_frame(frame: FrameType) -> FrameDetails:
                     # has continued execution and happened to wind up in the
                     # same place, because it will have the same stack depth.)
                     #
-                    # Note this also suffices to check that the frame remains
-                    # pinned on the thread stack if it was before, because
-                    # finishing execution would change lasti.
+                    # That the frame remains pinned on the thread stack if
+                    # it was before is checked separately (see above); no
+                    # call may come between these checks and the read.
+                    assert f_frame_field.value == iframe_addr
                     assert frame.f_lasti == lasti_before
 
                     try:
@@ -248,10 +275,11 @@ def inspect_frame(frame: FrameType) -> FrameDetails:
                     details.stack.append(obj)
 
             _verif_hook("inspect_frame:post_stack", frame)
+            assert f_frame_field.value == iframe_addr
             assert frame.f_lasti == lasti_before
 
         except AssertionError:
-            if frame.f_lasti == lasti_before:
+            if frame.f_lasti == lasti_before and f_frame_field.value == iframe_addr:
                 raise
             # otherwise this was probably a concurrent modification, try again
             continue
@@ -267,6 +295,12 @@ def inspect_frame(frame: FrameType) -> FrameDetails:
         )
 
     _verif_hook("inspect_frame:snapshot_done", frame)
+
+    if frame_owner == FRAME_OWNED_BY_FRAME_OBJECT:
+        # The frame has finished running (that's when a frame object takes
+        # its interpreter frame over). Nothing is active in it any more,
+        # whatever the position it was left at suggests.
+        return details
 
     # Figure out the active context managers and finally blocks, by
     # using the exception table to repeatedly simulate raising an exception
